@@ -178,9 +178,14 @@ class Encoder:
 
     @header_table_size.setter
     def header_table_size(self, value: int) -> None:
+        # Assigning the size already in force is not a change, but it must not
+        # cancel the update we still owe the peer for an earlier change.
+        update_pending = self.header_table.resized
         self.header_table.maxsize = value
         if self.header_table.resized:
             self.table_size_changes.append(value)
+        elif update_pending:
+            self.header_table.resized = True
 
     def encode(self,
                headers: Iterable[\
